@@ -92,12 +92,21 @@ def make(name, objects, pool, gates, *threads, **extra):
         for b in op.get('body', []):
             resolve(b)
 
+    def reserve(op):
+        # the resume channel of a suspension is modelled as a private gate
+        if op['k'] == 'suspend' and not op.get('g'):
+            s['gates'] += 1
+            op['g'] = s['gates']
+        for b in op.get('body', []):
+            reserve(b)
+
     for t in s['threads']:
         for op in t['ops']:
             collect(op)
     for t in s['threads']:
         for op in t['ops']:
             resolve(op)
+            reserve(op)
     return s
 
 
